@@ -182,6 +182,11 @@ pub fn gen(seed: u64, thorough: bool) {
         out.line(&format!("c08 int u128 {}", u128::MAX - d));
         out.line(&format!("c08 int u128 {}", d));
     }
+    // raw numbers whose separators stand at the edges of the number scanner's 32-byte blocks, well-formed and not
+    for t in number_shapes() {
+        out.line(&format!("c08 raw {} b", hex(&t)));
+        out.line(&format!("c08 raw {} q", hex(&t)));
+    }
     // raw numbers: grammar strings (bare and quoted), incl. ungrammatical ones
     let lits: &[&str] = &["0", "-0", "1", "-1", "1.5", "1e5", "1E+5", "1e-5", "0.000", "123456789012345678901234567890", "1.7976931348623157e308", "1e999",
         "01", "1.", ".5", "1e", "-", "+1", "1 ", " 1", "1,", "0x1", "1e5x", "", "1.5.5", "--1", "1e+", "9223372036854775808", "-9223372036854775809", "18446744073709551616"];
